@@ -185,7 +185,7 @@ def systematic(ctx, conf, tmpdir):
             return P.run_pipeline(case, data, tmpdir, strategy=strat)
 
         ok = True
-        for devs, strat, res in SY.enumerate_schedules(run_fn, conf["systematic_deviations"], ctx.out_of_time):
+        for devs, strat, res in SY.enumerate_schedules(run_fn, conf["systematic_deviations"], (lambda: ctx.phase_over(0.85))):
             s = res.sched
             ctx.case(stable_hash(["sys", case["v"], observers, saver, s.decisions]), bool(expected))
             ctx.count("systematic_schedules")
@@ -306,13 +306,13 @@ def run_shard(ctx):
                 case["observer_timeouts"] = list(case["observer_timeouts"][:k]) + [0.2] + list(case["observer_timeouts"][k:])
                 case["observer_dies_at"] = rng.randint(1, 3)
             one(ctx, case, tmpdir)
-            if ctx.out_of_time():
+            if ctx.phase_over(0.45):
                 break
         rng = ctx.rng("lines")
         for i in range(conf["line_runs"]):
             case = P.random_pipeline_case(rng, max_windows=20 if i % 4 == 0 else 10, line_mode=(True, "instr", "all", "instr")[i % 4])
             one(ctx, case, tmpdir)
-            if ctx.out_of_time():
+            if ctx.phase_over(0.65):
                 break
         systematic(ctx, conf, tmpdir)
         if ctx.shard == 2 or (ctx.tier == "thorough" and ctx.shard < 6):
